@@ -41,6 +41,10 @@ func init() {
 			"synchronously through the switch and router handlers (exact attribution) and asynchronously through a real TCP link into a real relay-only instance with its real worker pools (sentinel pongs interleaved); non-trivial = input that passes link authentication and parsing and reaches a handler; distinct by (entry path, message type, ping type, mutation operator)",
 		Run:              run,
 		CrashIsViolation: true,
+		HasRacePart:      true,
+		// state reachable from network input during link setup and frame handling: a data race there is a
+		// schedule on which a worker can dereference what another one just cleared
+		RaceAnchors: []string{`state\.\(\*EncryptionSession\)\.Init`, `state\.\(\*EncryptionSession\)\.initFinalize`, `state\.\(\*EncryptionSession\)\.DeriveSessionFromKX`, `peering\.\(\*peeringRequestState\)`, `router\.\(\*Router\)\.handle`, `router\.\(\*PingPongHandler\)`, `router\.\(\*HelloPingHandler\)`, `router\.\(\*ErrorPingHandler\)`},
 	})
 }
 
@@ -1181,6 +1185,67 @@ func stuckWorkers() []string {
 	return stuck
 }
 
+// raceSetups (race-detector build): one peer opens two connections at the same time, again and again, against
+// one long-lived victim, then sends hostile frames over whatever link came up. The two setups share the peer's
+// session at the victim.
+func raceSetups(res *core.Result, r *rand.Rand, n int) {
+	idV, idM := env.NewIdentity(r, nil), env.NewIdentity(r, nil)
+	victim := wire.NewRouter(idV, config.Router{})
+	for i := 0; i < n; i++ {
+		mal := wire.NewRouter(idM, config.Router{})
+		w1, w2 := wire.New(), wire.New()
+		var wg sync.WaitGroup
+		var links [4]peering.Link
+		var errs [4]error
+		for k, c := range []struct {
+			rt  *wire.Router
+			cn  net.Conn
+			out bool
+		}{{mal, w1.A, true}, {victim, w1.B, false}, {mal, w2.A, true}, {victim, w2.B, false}} {
+			wg.Add(1)
+			go func() {
+				defer wg.Done()
+				if c.out {
+					links[k], errs[k] = c.rt.Inst.PeeringV.VerifSetupLink(c.cn, wire.URL, true)
+				} else {
+					links[k], errs[k] = c.rt.Inst.PeeringV.VerifSetupLink(c.cn, wire.URL, false)
+				}
+			}()
+		}
+		fin := make(chan struct{})
+		go func() { wg.Wait(); close(fin) }()
+		select {
+		case <-fin:
+		case <-time.After(3 * time.Second):
+			w1.A.Close()
+			w1.B.Close()
+			w2.A.Close()
+			w2.B.Close()
+			<-fin
+		}
+		for k, e := range errs {
+			if e != nil && errors.Is(e, mgr.ErrWorkerPanic) {
+				res.Violate("worker-panic:concurrent-setups", fmt.Sprintf("two simultaneous connections of one peer panicked a setup worker (setup %d): %v", k, e), map[string]any{"iteration": i})
+				return
+			}
+		}
+		up := 0
+		for _, l := range links {
+			if l != nil {
+				up++
+				l.Close(nil)
+			}
+		}
+		w1.A.Close()
+		w1.B.Close()
+		w2.A.Close()
+		w2.B.Close()
+		res.Case(fmt.Sprintf("race:concurrent-setups|%d", up), true)
+		res.Count("race_concurrent_setup_rounds", 1)
+		time.Sleep(4 * time.Millisecond)
+	}
+}
+
 func parallel(n int, fn func(w int)) {
 	var wg sync.WaitGroup
 	for w := 0; w < n; w++ {
@@ -1192,6 +1257,13 @@ func parallel(n int, fn func(w int)) {
 
 func run(c *core.Ctx) {
 	res := c.Res
+	if c.RaceBuild {
+		parallel(4, func(w int) {
+			raceSetups(res, core.RNG(fmt.Sprintf("c13/race/%d", w)), c.Q(40, 600))
+		})
+		res.Require(res.Counter("race_concurrent_setup_rounds") >= 50, "too few concurrent setup rounds under the race detector")
+		return
+	}
 	const W = 12
 	parallel(W, func(w int) {
 		r := core.RNG(fmt.Sprintf("c13/%d", w))
